@@ -109,7 +109,9 @@ class C09(InputProp):
         twins = Product(["math", "pre", "source", "syntaxhighlight", "timeline"], ["real-first", "nowiki-first"],
                         ["top", "bullet", "cell", "bold"], ["w", "x^2 ''a''"], name="twins")
         consumed = Product(TAGS, sorted(CONSUMING), Seqs(SIGMA_B, 1 if tier == "quick" else 2, minlen=1), name="consumed")
-        self.space = Concat(bodies, heavy, twins, consumed)
+        # the function form of a tag with its body protected by <nowiki>: {{#tag:source|<nowiki>code</nowiki>}}
+        tagfn = Product(["pre", "source", "syntaxhighlight", "math", "timeline"], ["tag-function"], Seqs(SIGMA_B, 1 if tier == "quick" else 2, minlen=1), name="tagfn")
+        self.space = Concat(bodies, heavy, twins, consumed, tagfn)
         self.ctx = {c[0]: c for c in CONTEXTS}
         self.baselines = {}
 
@@ -140,6 +142,8 @@ class C09(InputProp):
         if case[0] == "twins":
             return {"twin": case[1]}
         tag, ctxname, body = case[1]
+        if case[0] == "tagfn":
+            return {"tag": tag, "context": ctxname, "body": "".join(body), "page": "{{#tag:%s|<nowiki>%s</nowiki>}}" % (tag, "".join(body))}
         if case[0] == "consumed":
             return {"tag": tag, "context": ctxname, "body": "".join(body), "page": CONSUMING[ctxname] % ("<%s>%s</%s>" % (tag, "".join(body), tag))}
         return {"tag": tag, "context": ctxname, "body": "".join(body), "page": self.page(tag, ctxname, "".join(body))[0]}
@@ -182,6 +186,30 @@ class C09(InputProp):
         body = "".join(lex)
         if ("</%s>" % tag) in body.lower() or "\x7f" in body:
             return {"key": "excluded", "counters": {"excluded_own_closing_tag": 1}}
+        if fam == "tagfn":
+            if "</nowiki>" in body.lower():
+                return {"key": "excluded", "counters": {"excluded_own_closing_tag": 1}}
+            text = "before {{#tag:%s|%s<nowiki>%s</nowiki>%s}} after" % (tag, S0, body, S1)
+            try:
+                t = self.parse(title="Test", raw=text, wikidb=LangDB("en", {"T": "tt"}), lang="en")
+            except Exception as e:
+                return {"key": "exc", "viol": [{"sig": "raises:" + exc_signature(e), "msg": "parsing %r raised %r" % (text, e)}]}
+            out = []
+
+            def walk(n):
+                if type(n).__name__ in ("Text", "Math", "Timeline") and isinstance(getattr(n, "caption", None), str):
+                    out.append(n.caption)
+                for ch in n.children:
+                    walk(ch)
+            walk(t)
+            alltext = "".join(out)
+            want = decode_entities(body) if tag == "pre" else body
+            m = re.search(re.escape(S0) + "(.*)" + re.escape(S1), alltext, re.S)
+            viol = []
+            if not m or m.group(1) != want or DEBRIS.search(alltext):
+                viol.append({"sig": "%s|body:%s:tag-function" % (self.feature(lex, tag), tag),
+                             "msg": "page %r: the tree carries %r between the sentinels, the body written is %r" % (text, (m.group(1) if m else alltext)[:200], want)})
+            return {"key": (tag, ctxname, bool(viol)), "steps": 1, "viol": viol}
         if fam == "consumed":
             text = "before " + CONSUMING[ctxname] % ("%s<%s>%s</%s>%s<%s>w</%s>" % (S0, tag, body, tag, S1, tag, tag)) + " after"
             try:
